@@ -30,6 +30,68 @@ func init() {
 type c11Case struct {
 	N      int    `json:"n"`
 	Subset string `json:"subset"` // one character per transaction: '1' chosen, '0' not
+	// Twins: the block contains two transactions (positions 3 and N-2) whose identifiers agree in their
+	// first four bytes ("head4"), their last four bytes ("tail4"), or the first two and last two
+	// ("ends2") - found by varying a lock time.  Anything that files hashes under part of their
+	// bytes (an index for large requested sets, a map keyed by a prefix) confuses exactly these.
+	Twins string `json:"txid_twins,omitempty"`
+}
+
+var c11TwinBlocks sync.Map
+
+func c11TwinBlock(n int, kind string) *c11Block {
+	key := fmt.Sprintf("%s/%d", kind, n)
+	if v, ok := c11TwinBlocks.Load(key); ok {
+		return v.(*c11Block)
+	}
+	base := c11GetBlock(n)
+	blk := wire.NewMsgBlock(&base.msg.Header)
+	part := func(h chainhash.Hash) uint32 {
+		switch kind {
+		case "head4":
+			return uint32(h[0])<<24 | uint32(h[1])<<16 | uint32(h[2])<<8 | uint32(h[3])
+		case "tail4":
+			return uint32(h[28])<<24 | uint32(h[29])<<16 | uint32(h[30])<<8 | uint32(h[31])
+		}
+		return uint32(h[0])<<24 | uint32(h[1])<<16 | uint32(h[30])<<8 | uint32(h[31])
+	}
+	// birthday search over lock times of one transaction shape
+	seen := map[uint32]uint32{}
+	var lt1, lt2 uint32
+	mk := func(lt uint32) *wire.MsgTx {
+		tx := wire.NewMsgTx(1)
+		o := wire.OutPoint{Hash: chainhash.Hash{0x7a, 0x7b}, Index: lt}
+		tx.AddTxIn(wire.NewTxIn(&o, []byte{0x51}))
+		tx.AddTxOut(wire.NewTxOut(9, []byte{0x51}, wire.TokenData{}))
+		tx.LockTime = lt
+		return tx
+	}
+	for lt := uint32(1); lt < 3000000; lt++ {
+		p := part(mk(lt).TxHash())
+		if o, ok := seen[p]; ok {
+			lt1, lt2 = o, lt
+			break
+		}
+		seen[p] = lt
+	}
+	if lt2 == 0 {
+		panic("c11: no txid twins found")
+	}
+	b := &c11Block{msg: blk}
+	for i, tx := range base.msg.Transactions {
+		switch i {
+		case 3:
+			tx = mk(lt1)
+		case n - 2:
+			tx = mk(lt2)
+		}
+		blk.AddTransaction(tx)
+		b.ids = append(b.ids, ref.Hash32(tx.TxHash()))
+	}
+	b.root = ref.MerkleRoot(b.ids)
+	blk.Header.MerkleRoot = chainhash.Hash(b.root)
+	c11TwinBlocks.Store(key, b)
+	return b
 }
 
 type c11Block struct {
@@ -126,6 +188,9 @@ func c11EvalMsg(w *mc.W, cas c11Case, builder string, msg *wire.MsgMerkleBlock, 
 func c11Eval(w *mc.W, cas c11Case) {
 	c := w.Ctx()
 	b := c11GetBlock(cas.N)
+	if cas.Twins != "" {
+		b = c11TwinBlock(cas.N, cas.Twins)
+	}
 	matched := make([]bool, cas.N)
 	k := 0
 	for i := range matched {
@@ -371,6 +436,32 @@ func runC11(c *mc.Ctx) {
 					}
 					cases = append(cases, c11Case{N: n, Subset: string(b)})
 				}
+			}
+		}
+	}
+	// blocks with txid twins (see c11Case.Twins), 20 and 40 transactions: everything requested, the twins
+	// with fourteen / thirty others, the twins alone, one twin, everything but one twin
+	for _, kind := range []string{"head4", "tail4", "ends2"} {
+		for _, n := range []int{20, 40} {
+			sub := func(f func(i int) bool) string {
+				b := make([]byte, n)
+				for i := range b {
+					b[i] = '0'
+					if f(i) {
+						b[i] = '1'
+					}
+				}
+				return string(b)
+			}
+			for _, ss := range []string{
+				sub(func(i int) bool { return true }),
+				sub(func(i int) bool { return i == 3 || i == n-2 || i%5 != 0 }),
+				sub(func(i int) bool { return i == 3 || i == n-2 }),
+				sub(func(i int) bool { return i == 3 }),
+				sub(func(i int) bool { return i != n-2 }),
+				sub(func(i int) bool { return i != 3 }),
+			} {
+				cases = append(cases, c11Case{N: n, Subset: ss, Twins: kind})
 			}
 		}
 	}
